@@ -3,9 +3,7 @@ package types
 import (
 	"bytes"
 	"fmt"
-	"io/ioutil"
 	"math/big"
-	"os"
 	"time"
 
 	"github.com/ethereum/go-ethereum/common"
@@ -183,17 +181,8 @@ func verifyHeader(
 // in a batch of parents (ascending order) to avoid looking those up from the
 // database. This is useful for concurrently verifying a batch of new headers.
 func VerifyCascadingFields(header Header) error {
-	cachedir, err := ioutil.TempDir("", "")
-	if err != nil {
-		fmt.Println(err)
-		return errEthashStopped
-	}
-	defer os.RemoveAll(cachedir)
-	config := Config{
-		CacheDir:     cachedir,
-		CachesOnDisk: 1,
-	}
-	ethash := New(config, nil, false)
+	// the verification cache is generated in memory: the result must not depend on the node's file system
+	ethash := New(Config{CachesInMem: 1}, nil, false)
 	defer ethash.Close()
 	if err := ethash.VerifySeal(header.ToVerifyHeader(), false); err != nil {
 		return ErrHeader
